@@ -2,6 +2,7 @@ package main
 
 import (
 	"fmt"
+	"go/token"
 	"strings"
 
 	"golang.org/x/tools/go/ssa"
@@ -200,6 +201,27 @@ func c17(c *Ctx) {
 		for _, in := range sites(f, callTo("os.(*File).ReadAt")) {
 			a := desc(callOf(in).Args[2])
 			c.check(strings.Contains(a, "fileBaseOffset") && strings.Contains(a, "param:off"), r, fnName(f)+":file-position", c.pos(in.Pos()), "reads at fileBaseOffset+off", "reads the file at "+a)
+			// the file holds valid bytes only below fileOffset (after a rewind the discarded tail is still there; what
+			// was appended since is in the write buffer): the read from the file ends at fileOffset.
+			// obligation  off + len(buffer passed to f.ReadAt) <= fileOffset, discharged by the E6 prover
+			p := newProver(c, f)
+			buf := callOf(in).Args[1]
+			var fo ssa.Value
+			allInstrs(f, false, func(x ssa.Instruction) {
+				if ld, ok := x.(*ssa.UnOp); ok && ld.Op == token.MUL {
+					if fl, _ := fieldOf(ld.X); fl == "AppendableFile.fileOffset" && fo == nil {
+						fo = ld
+					}
+				}
+			})
+			if fo == nil {
+				c.undecided(r, fnName(f)+":file-read-ends-at-fileOffset", "no load of fileOffset")
+				continue
+			}
+			l := p.lenOf(buf).add(p.linOf(f.Params[2]), 1).add(p.linOf(fo), -1)
+			okp, how := p.proveObl(boundsObl{in, "file read ends at fileOffset", l})
+			c.check(okp, r, fnName(f)+":file-read-ends-at-fileOffset", c.pos(in.Pos()), how+": "+l.String()+" <= 0",
+				"the file is read beyond fileOffset (need "+l.String()+" <= 0): after SetOffset rewound the appendable the file still holds the discarded bytes, which are returned instead of the data appended since")
 		}
 	}
 }
